@@ -20,6 +20,7 @@
 # @author: ballance
 
 
+import os
 import random
 import sys
 import time
@@ -62,6 +63,11 @@ from vsc.model.solvegroup_swizzler_range import SolveGroupSwizzlerRange
 from vsc.model.solvegroup_swizzler_partsel import SolveGroupSwizzlerPartsel
 from vsc.impl.ctor import glbl_debug, glbl_solvefail_debug
 
+
+# Verification hook: observation only, honoured only when PYVSC_VERIF=1 
+# is set in the environment at import time (off by default)
+_verif_hook = None
+_verif_enabled = (os.environ.get("PYVSC_VERIF", "") == "1")
 
 def _btor_opt(name):
     """Resolves a Boolector option id across PyBoolector versions"""
@@ -655,6 +661,9 @@ class Randomizer(RandIF):
 #        if Randomizer._rng is None:
 #            Randomizer._rng = random.Random(random.randrange(sys.maxsize))
         ri = RandInfoBuilder.build(field_model_l, constraint_l, Randomizer._rng)
+        
+        if _verif_enabled and _verif_hook is not None:
+            _verif_hook("pre_solve", ri, bounds_v.bound_m, field_model_l, constraint_l)
         
         try:
             r.randomize(ri, bounds_v.bound_m)
